@@ -220,7 +220,10 @@ def main():
     except HarnessError as e:
         print('harness error: %s' % e, file=sys.stderr)
         sys.exit(2)
-    except Exception:
+    except SystemExit:
+        raise
+    except BaseException:
+        # anything else that escapes - a time-out raised at an unlucky moment included - is a harness failure, never a verdict
         traceback.print_exc()
         sys.exit(2)
 
